@@ -62,6 +62,13 @@ def kc_dom(G, H):
     return kc(G, H)
 
 
+def _cput(g, a, b, w):
+    _dom(0 <= int(a) < g.shape[0] and 0 <= int(b) < g.shape[2], 'fibre out of range')
+    h = g.copy()
+    h[int(a), :, int(b)] = [w[m] for m in range(g.shape[1])]
+    return h
+
+
 def chain(Y, ix, k):
     k = int(k)
     _dom(0 <= k < 8, 'chain index')
@@ -90,6 +97,9 @@ INTERP = {
     'foldR': lambda a, n, r: np.reshape(a, (a.shape[0], int(n), int(r)), order='F'),
     'foldLC': lambda a, r, n: a.reshape(int(r), int(n), a.shape[1]),
     'rowblk': rowblk, 'colsel': colsel,
+    'centry': lambda g, a, m, b: (_dom(0 <= int(a) < g.shape[0] and 0 <= int(m) < g.shape[1] and 0 <= int(b) < g.shape[2], 'entry out of range'),
+                                  g[int(a), int(m), int(b)])[1],
+    'cput': lambda g, a, b, w: _cput(g, a, b, w),
     'lcols': lambda a, r: (_dom(0 <= int(r) <= a.shape[1], 'leading columns out of range'), a[:, :int(r)])[1],
     'trows': lambda a, r: (_dom(0 <= int(r) <= a.shape[0], 'leading rows out of range'), a[:int(r), :])[1],
     'cmulR': lambda g, u: np.einsum('ijq,ql', g, u), 'fro': lambda g: float(np.linalg.norm(g)),
@@ -193,6 +203,8 @@ def sample(sort, rng):
         return {k: cores[k] for k in range(d)} | {k: cores[-1] for k in range(d, 8)}
     if sort == T.IDX:
         return {k: 0 for k in range(8)}
+    if sort == z3.ArraySort(z3.IntSort(), z3.RealSort()):
+        return {k: float(rng.integers(-3, 4)) for k in range(8)}
     raise NotImplementedError(str(sort))
 
 
